@@ -543,6 +543,8 @@ fn build_unit(corpus: &[Shape], case: &Case, ids: &mut Ids) -> Vec<Fr> {
             }
             let mut ab = transfer(ids.handles[0], p == 0, case.cont, id, &tag, false);
             ab.aborted = true;
+            // "aborted takes precedence over more" (2.7.5): half of the abort frames also say more=true
+            ab.more = (p + case.msg as usize + case.cont as usize) % 2 == 0;
             first.push(Fr {
                 link: 0,
                 t: ab,
